@@ -3,7 +3,7 @@ CONSTANTS
   CommitSeqBeforeWrite = FALSE
   FreezeBeforeMetaFlush = FALSE
   ExpireOnConsumed = FALSE
-  Writable = FALSE
+  Writable = TRUE
 SPECIFICATION TraceSpec
 INVARIANTS SeriesIndexed AckNotAhead NoLoss NoReapply FlushedResolves NoIdReuse IndexedResolves AckedDataIndexed
 CONSTRAINT HighWater
